@@ -75,7 +75,7 @@ def job(cfg):
     thorough = cfg["tier"] == "thorough"
     wt = cfg["wt"]
     n, na, nb = (3, 1, 1) if wt == "restricted" else (3, 2, 1)
-    sysd = samplers.system(n, na, nb, 1, cfg["seed"], wt, scale=0.7)
+    sysd = samplers.system(n, na, nb, 1, cfg["seed"], wt, scale=0.7, spin_dep=(wt == "unrestricted"))
     D = 4 if not thorough else 5
     tn, tu, S = make_tables(cfg, D)
     vr = vrng.install(tn, tu)
